@@ -90,8 +90,9 @@ func (s *BadSmellListener) EnterClassDeclaration(ctx *ClassDeclarationContext) {
 
 func getTypeData(typ *TypeTypeContext) string {
 	var typeData string
-	classOrInterface := typ.ClassOrInterfaceType().(*ClassOrInterfaceTypeContext)
-	if classOrInterface != nil {
+	// a primitive (array) type has no classOrInterfaceType child
+	classOrInterface, ok := typ.ClassOrInterfaceType().(*ClassOrInterfaceTypeContext)
+	if ok && classOrInterface != nil {
 		identifiers := classOrInterface.AllIdentifier()
 		typeData = identifiers[len(identifiers)-1].GetText()
 	}
